@@ -1,7 +1,8 @@
 (* Prop_C44.v — the property theorems of C44 and nothing else. *)
 From Coq Require Import List NArith ZArith Bool.
 Import ListNotations.
-From Verif Require Import Base.Val C01.Model_C01 C04.Model_C04 C44.Model_C44 C44.Spec_C44 C44.Proofs_C44.
+From Verif Require Import Base.Val C01.Model_C01 C04.Model_C04.
+From Verif Require Import C44.Model_C44 C44.Spec_C44 C44.Proofs_C44.
 From Verif Require C03.Model_C03.
 
 (* the recursive matcher decides the shell-pattern language (a star stands for any string) *)
@@ -44,6 +45,30 @@ Print Assumptions query_selects_orig_refuted.
 Theorem orig_is_fixed_partial : forall t, known_class t = false -> parse_match_orig t = parse_match t.
 Proof. exact orig_is_fixed_partial_proof. Qed.
 Print Assumptions orig_is_fixed_partial.
+
+(* the known class of the atom clause, precisely: the head of parse_match rejects a (non-blocker) text
+   exactly when its slot or sub-slot field is a star-containing token that is neither a lone star nor
+   a well-formed pattern; every such text is rejected ... *)
+Theorem head_rejects_iff : forall t, mem c_bang t = false ->
+  (parse_head t = HBadGlob <-> head_rejects t = true).
+Proof. exact head_rejects_iff_proof. Qed.
+Print Assumptions head_rejects_iff.
+
+Theorem class_rejected : forall fix_ t, mem c_bang t = false -> head_rejects t = true ->
+  parse_match_gen fix_ t = EParse.
+Proof. exact class_rejected_proof. Qed.
+Print Assumptions class_rejected.
+
+(* ... and outside it a valid atom text that reads as an atom (a "/" left of :slot / ::repo, and a
+   star there only behind a version operator) is accepted as that very atom — with or without stars
+   (=cat/pkg-1*, cat/pkg:*, cat/pkg:*::repo[flag]) *)
+Theorem atom_accepted_partial : forall fix_ t a,
+  mem c_bang t = false -> head_rejects t = false -> atom_shaped t = true ->
+  Model_C03.parse_atom None false (strip t) = Model_C03.Ok a ->
+  parse_match_gen fix_ t = atom_result t
+  /\ (Model_C03.a_transitive a = false -> parse_match_gen fix_ t = Ok (QAtom a)).
+Proof. exact atom_accepted_partial_proof. Qed.
+Print Assumptions atom_accepted_partial.
 
 (* "every non-blocker atom text is accepted" is false: cat/pkg:*[flag] is rejected *)
 Theorem atom_accepted_refuted : ~ C44_atom_full_statement.
